@@ -46,7 +46,12 @@ structure Defects where
   uidOrderReversed : Bool
 deriving Repr, DecidableEq
 
-def Defects.asImplemented : Defects := ⟨true, true, true, true, false⟩
+/-- what /repo does now. Fixed upstream (switch turned off here): newest-first replay (f7a29ff), raw rights on
+    reload (be6bedc), incomplete rooms dropped on reload (ee57a96). Still on: the new-group users rule (#33). -/
+def Defects.asImplemented : Defects := ⟨false, false, false, true, false⟩
+
+/-- /repo before the fixes that this check led to -/
+def Defects.beforeFixes : Defects := ⟨true, true, true, true, false⟩
 def Defects.none : Defects := ⟨false, false, false, false, false⟩
 
 inductive MErr where
